@@ -4,6 +4,7 @@ server content (sets of instance names per class) with a string-split ownership 
 The real code under test is pywbem.WBEMSubscriptionManager driving pywbem_mock (FakedWBEMConnection with
 the subscription providers); the observation points are get_owned_*/get_all_*, the exceptions, and the
 interop instance store of the mock read directly (not through the manager)."""
+import copy
 import io
 import itertools
 import os
@@ -21,6 +22,7 @@ with redirect_stdout(io.StringIO()):   # the test helper prints a banner on impo
     from tests.unittest.utils.wbemserver_mock import WbemServerMock
     from tests.unittest.pywbem.test_subscriptionmanager import SUBSCRIPTION_WBEM_SERVER_MOCK_DICT
 from pywbem import WBEMServer, WBEMSubscriptionManager, CIMInstanceName, CIMInstance, CIMError
+from pywbem import ConnectionError as WBEMConnectionError
 
 warnings.simplefilter('ignore')
 
@@ -29,7 +31,14 @@ R = Run('WBEMSubscriptionManager on 1..2 pywbem_mock servers x 1..3 managers vs 
         'through create/discover/remove/restart; all op sequences of length <= 2 (quick) / <= 3 (thorough) over a '
         '18-symbol alphabet for 1 manager x 1 server + seeded longer ones; 14 listener-URL forms x 7 persistence '
         'types x owned/permanent; unregistered-server, colon-in-id, host-in-path scenarios; seeded random histories '
-        'of 10..24 ops (duplicate adds, removals in any order, list arguments, restarts, foreign instances)')
+        'of 10..24 ops (duplicate adds, removals in any order, list arguments, restarts, foreign instances); '
+        'failing server calls: for 22 manager calls (add_server warm/fresh, add_destination, add_filter, '
+        'add_subscriptions, remove_subscriptions, remove_filter, remove_destinations, remove_server, '
+        'remove_all_servers on 2 servers, __exit__) on a populated server with 2 managers the k-th '
+        'Create/Get/Delete/Enumerate/ReferenceNames call of that one manager call (every k, from a dry run) raises '
+        'CIMError(FAILED) or ConnectionError before execution, or ConnectionError after execution (reply lost: '
+        'Create/Delete only, the lost instance is the one modelled exception), then retry or restart recovery; '
+        'remove_server blocked by another manager\'s subscription; seeded random histories with one faulted call')
 
 FIL = 'CIM_IndicationFilter'
 DST = 'CIM_ListenerDestinationCIMXML'
@@ -84,6 +93,64 @@ URL_OK = [u for u, n in URLS.items() if n not in (None, 'either')]
 PTYPES = {None: None, 'permanent': 2, 'transient': 3, 'Transient': 3, 'PERMANENT': 2, 'bogus': 'bad', 3: 'bad'}
 
 
+# ---------------------------------------------------------------- failing server calls
+
+class Injector:
+    """Wraps the client-facing operations of the mock connections. Transparent unless armed; when armed with (k, mode)
+    the k-th top-level operation (operations the mock's providers issue internally while serving a request are not
+    counted) fails:
+      'cim'  : CIMError(CIM_ERR_FAILED) instead of executing the request,
+      'conn' : pywbem.ConnectionError instead of executing the request,
+      'lost' : the request is executed by the server, then pywbem.ConnectionError (the reply is lost)."""
+    OPS = ('CreateInstance', 'GetInstance', 'DeleteInstance', 'EnumerateInstances', 'ReferenceNames',
+           'ModifyInstance', 'EnumerateInstanceNames')
+
+    def __init__(self):
+        self.depth = 0
+        self.disarm()
+
+    def disarm(self):
+        self.k = None
+        self.mode = None
+        self.log = []
+        self.fired = None      # name of the operation that was made to fail
+        self.lost = None       # (instance path, server index) of the instance created/deleted by a lost-reply call
+
+    def arm(self, k, mode):
+        self.disarm()
+        self.k, self.mode = k, mode
+
+    def install(self, conn, si):
+        for name in self.OPS:
+            setattr(conn, name, self.wrap(name, getattr(conn, name), si))
+
+    def wrap(self, name, orig, si):
+        def call(*a, **kw):
+            if self.depth or self.k is None:
+                return orig(*a, **kw)
+            self.log.append(name)
+            self.depth += 1
+            try:
+                if len(self.log) != self.k:
+                    return orig(*a, **kw)
+                if self.mode == 'lost':
+                    res = orig(*a, **kw)      # a semantic refusal by the server propagates as it is (nothing lost)
+                    self.fired = name
+                    if name in ('CreateInstance', 'DeleteInstance'):
+                        self.lost = (res if name == 'CreateInstance' else a[0], si)
+                    raise WBEMConnectionError('injected fault: reply lost')
+                self.fired = name
+                if self.mode == 'cim':
+                    raise CIMError(FAILED, 'injected fault')
+                raise WBEMConnectionError('injected fault')
+            finally:
+                self.depth -= 1
+        return call
+
+
+INJ = Injector()
+
+
 # ---------------------------------------------------------------- the real servers (built once, reset per case)
 
 class Srv:
@@ -91,6 +158,7 @@ class Srv:
         with redirect_stdout(io.StringIO()):
             mock = WbemServerMock(interop_ns=NS, server_mock_data=SUBSCRIPTION_WBEM_SERVER_MOCK_DICT, url=url)
         self.conn = mock.wbem_server.conn
+        INJ.install(self.conn, len(SERVERS))
         self.url = self.conn.url
         self.sysname = mock.wbem_server.cimom_inst['SystemName']
         self.store = self.conn.cimrepository.get_instance_store(NS)
@@ -99,6 +167,7 @@ class Srv:
             if n.classname in ('CIM_RegisteredProfile', 'CIM_ReferencedProfile', 'CIM_ElementConformsToProfile'):
                 self.store.delete(n)
         self.wbem_server = WBEMServer(self.conn)
+        _ = (self.wbem_server.interop_ns, self.wbem_server.cimom_inst)   # cached from here on (deterministic call counts)
         self.nreg = 0
 
     def server_object(self):
@@ -112,6 +181,15 @@ class Srv:
         for n in list(self.store.iter_names()):
             if n.classname in (FIL, DST, SUB):
                 self.store.delete(n)
+
+    def dump(self):
+        """The filter/destination/subscription instances, for load() (the store copies on the way in and out)."""
+        return [(n, self.store.get(n)) for n in list(self.store.iter_names()) if n.classname in (FIL, DST, SUB)]
+
+    def load(self, dumped):
+        self.reset()
+        for n, inst in dumped:
+            self.store.create(n, inst)
 
     def snapshot(self):
         fil, dst, sub = set(), {}, set()
@@ -172,6 +250,28 @@ class History:
         self.trace = []
         self.relabel = relabel
         self.vids = []
+        self.fixed_server_objects = False   # True: add_server always gets the long-lived (warm) WBEMServer
+        self.exempt = {}        # (manager, server, class) -> keys of instances created/deleted by a lost-reply call
+        self.partial = set()    # managers whose remove_server/remove_all_servers/__exit__ failed partway
+        self.last_fired = None  # operation name the injector made fail in the current step
+        self.resync_on_mismatch = False
+
+    # ---- checkpoints (a populated state is built once and cloned for every case that starts from it)
+    def checkpoint(self):
+        return dict(stores=[srv.dump() for srv in self.srv], mgr=[clone_manager(m) for m in self.mgr],
+                    model=self.copy_model(), trace=list(self.trace), ids=list(self.ids), nsrv=len(self.srv))
+
+    @classmethod
+    def restore(cls, cp, family, relabel=None):
+        H = cls(family, cp['ids'], cp['nsrv'], relabel=relabel)
+        for srv, dumped in zip(H.srv, cp['stores']):
+            srv.load(dumped)
+        H.mgr = [clone_manager(m) for m in cp['mgr']]
+        for S, (fil, dst, sub) in zip(H.msrv, cp['model'][0]):
+            S.fil, S.dst, S.sub = set(fil), dict(dst), dict(sub)
+        H.reg = [set(r) for r in cp['model'][1]]
+        H.trace = list(cp['trace'])
+        return H
 
     # ---- reporting
     def report(self, vid, **detail):
@@ -179,6 +279,8 @@ class History:
         if self.relabel:
             vid = self.relabel(vid, op, self)
         self.vids.append(vid)
+        if vid in KNOWN_WHAT:
+            detail['what'] = KNOWN_WHAT[vid]
         R.violation(vid, family=self.family, manager_ids=self.ids, nservers=len(self.srv),
                     history=list(self.trace), **detail)
 
@@ -205,6 +307,9 @@ class History:
         mid = self.ids[m]
         if kind == 'restart':
             self.reg[m] = set()
+            self.partial.discard(m)
+            for key in [key for key in self.exempt if key[0] == m]:
+                del self.exempt[key]
             return {'ok'}, None
         if kind in ('unreg_all', 'exit', 'exit_exc'):
             for s in sorted(self.reg[m]):
@@ -351,7 +456,9 @@ class History:
         srv = self.srv[op[2]]
         sid = srv.url
         if kind == 'reg':
-            return mgr.add_server(srv.server_object())
+            if len(op) > 3 and op[3] == 'fresh':
+                return mgr.add_server(WBEMServer(srv.conn))     # interop namespace and object manager not cached yet
+            return mgr.add_server(srv.wbem_server if self.fixed_server_objects else srv.server_object())
         if kind == 'unreg':
             return mgr.remove_server(sid)
         if kind == 'add_filter':
@@ -385,12 +492,25 @@ class History:
         raise AssertionError(op)
 
     # ---- one step
-    def step(self, op, final=False):
-        """Returns True if no violation was seen at this step."""
+    def copy_model(self):
+        return [(set(S.fil), dict(S.dst), dict(S.sub)) for S in self.msrv], [set(r) for r in self.reg]
+
+    def step(self, op, final=False, fault=None, quiet=False):
+        """Returns True if no violation was seen at this step.
+        fault = (k, mode): the k-th server call of this manager call fails (see Injector); fault = ('natural',): the
+        call is expected to be refused partway by the server for a semantic reason. quiet: outcome check only."""
+        injecting = fault is not None and fault[0] != 'natural'
+        if injecting:
+            self.trace.append(('with-fault', fault[0], fault[1]))
         self.trace.append(op)
         n0 = len(self.vids)
         kind = op[0]
+        self.last_fired = None
+        pre = self.copy_model() if fault is not None or self.resync_on_mismatch else None
         accepted, ret = self.model(op)
+        post = self.copy_model() if pre is not None else None
+        if injecting:
+            INJ.arm(*fault)
         try:
             val = self.real(op)
             got = 'ok'
@@ -400,6 +520,14 @@ class History:
             got, val = 'CIMError:%d' % e.status_code, e
         except Exception as e:  # noqa
             got, val = type(e).__name__, e
+        finally:
+            fired, lost = INJ.fired, INJ.lost
+            INJ.disarm()
+        if fired:
+            self.last_fired = fired
+            self.trace[-2] = self.trace[-2] + (fired,)
+        if fired or (fault is not None and not injecting and got != 'ok'):
+            return self.after_failure(op, pre, post, got, val, fired, lost)
         if ret is not None and ret[0] == 'dest-deferred':
             if got == 'ok':
                 self.msrv[op[2]].dst[ret[1]] = (ret[2], ret[3])
@@ -410,10 +538,72 @@ class History:
             # the model did not follow what really happened: report the outcome only, the history ends here
             self.report('outcome-%s-expected-%s-got-%s' % (kind, '|'.join(sorted(accepted)), got),
                         observed=repr(val)[:300])
+            if self.resync_on_mismatch:
+                self.reg = pre[1]
+                self.resync(kind, pre, post, check=False)
             return False
+        if got == 'ok' and kind in UNREG_KINDS:
+            self.partial.discard(op[1])
+        if quiet:
+            return True
         if got == 'ok' and ret is not None:
             self.check_return(kind, ret, val)
         self.check_state(kind, op, with_get_all=final or len(self.trace) % 4 == 0)
+        return len(self.vids) == n0
+
+    def resync(self, kind, pre, post, check=True):
+        """After a call that failed partway: the server content must lie between the model before the call and the
+        model after the complete call (nothing else created, nothing else deleted); the model then follows the server
+        (subscription owners: as before the call, or as the complete call would have set them)."""
+        for si, srv in enumerate(self.srv):
+            fil, dst, sub = srv.snapshot()
+            P, Q, S = pre[0][si], post[0][si], self.msrv[si]
+            if check:
+                for cls, real, p, q in (('filter', fil, P[0], Q[0]), ('destination', set(dst), set(P[1]), set(Q[1])),
+                                        ('subscription', sub, set(P[2]), set(Q[2]))):
+                    if (real - p) - (q - p):
+                        self.report('server-state-after-%s-%s-extra' % (kind, cls), server=si,
+                                    extra=sorted((real - p) - (q - p)))
+                    if (p - real) - (p - q):
+                        self.report('server-state-after-%s-%s-missing' % (kind, cls), server=si,
+                                    missing=sorted((p - real) - (p - q)))
+            S.fil = set(fil)
+            S.dst = {n: (P[1][n] if n in P[1] else Q[1].get(n, dst[n])) for n in dst}
+            S.sub = {k: (P[2][k] if k in P[2] else Q[2].get(k)) for k in sub}
+
+    def after_failure(self, op, pre, post, got, val, fired, lost):
+        """The manager call met a failing server call (injected, or a semantic refusal partway)."""
+        n0 = len(self.vids)
+        kind = 'fault-' + op[0]
+        m = op[1]
+        if fired:
+            expected = ('CIMError:%d' % FAILED,) if INJ_MODE_EXC[self.trace[-2][2]] == 'cim' else ('ConnectionError',)
+            if got == 'ok':
+                # the manager absorbed the failure: then the complete effect of the call is required
+                self.check_state(kind, op, with_get_all=True)
+                return len(self.vids) == n0
+            if got not in expected or 'injected fault' not in str(val):
+                self.report('outcome-%s-%s-got-%s' % (kind, fired, got), observed=repr(val)[:300])
+        elif got != 'CIMError:%d' % FAILED:
+            self.report('outcome-%s-refused-got-%s' % (kind, got), observed=repr(val)[:300])
+        self.reg = pre[1]
+        self.resync(kind, pre, post)
+        if lost is not None:
+            # The one situation in which no client can keep its list equal to the server: the server executed the
+            # request and the reply never arrived. The instance concerned is exempted from the comparison of the
+            # acting manager's lists (until that manager object is dropped), and only that instance.
+            path, si = lost
+            cls = {FIL: 'filter', DST: 'destination', SUB: 'subscription'}[path.classname]
+            key = sub_key(path) if cls == 'subscription' else path.keybindings['Name']
+            self.exempt.setdefault((m, si, cls), set()).add((fired, key))
+        # registration of the acting manager
+        if op[0] in ('unreg', 'unreg_all', 'exit', 'exit_exc'):
+            self.partial.add(m)
+            for si in sorted(pre[1][m]):
+                if not any(self.exp_owned(m, si)) and not really_registered(self.mgr[m], self.srv[si].url):
+                    self.reg[m].discard(si)     # everything of that server was deleted and it was dropped: fine
+        # op[0] == 'reg': a failed add_server must not leave the server registered (model: as before the call)
+        self.check_state(kind, op, with_get_all=False)
         return len(self.vids) == n0
 
     def check_return(self, kind, ret, val):
@@ -457,15 +647,17 @@ class History:
         # 2. every live manager: registration set and owned lists == owned instances in the server
         for m, mgr in enumerate(self.mgr):
             for si, srv in enumerate(self.srv):
-                try:
-                    lists = (mgr.get_owned_filters(srv.url), mgr.get_owned_destinations(srv.url),
-                             mgr.get_owned_subscriptions(srv.url))
-                    registered = True
-                except ValueError:
-                    registered = False
-                except Exception as e:  # noqa
-                    self.report('get-owned-raises-' + type(e).__name__, manager=m, server=si)
-                    continue
+                lists, registered = [], True
+                for getter in (mgr.get_owned_filters, mgr.get_owned_destinations, mgr.get_owned_subscriptions):
+                    try:
+                        lists.append(getter(srv.url))
+                    except ValueError:
+                        registered = False
+                        break
+                    except Exception as e:  # noqa
+                        self.report('get-owned-raises-' + type(e).__name__, manager=m, server=si,
+                                    getter=getter.__name__)
+                        lists.append(None)
                 if registered != (si in self.reg[m]):
                     self.report('registration-after-%s-%s' % (kind, 'kept' if registered else 'lost'), manager=m,
                                 server=si)
@@ -476,6 +668,8 @@ class History:
                 real_now = srv.snapshot()
                 for cls, lst, e, now in zip(('filter', 'destination', 'subscription'), lists, exp,
                                             (real_now[0], set(real_now[1]), real_now[2])):
+                    if lst is None:
+                        continue
                     try:
                         names = [sub_key(i.path) if cls == 'subscription' else i.path.keybindings['Name'] for i in lst]
                     except Exception as ex:  # noqa
@@ -484,9 +678,12 @@ class History:
                     if len(names) != len(set(names)):
                         self.report('owned-list-after-%s-%s-duplicate' % (kind, cls), manager=m, server=si,
                                     observed=sorted(names))
-                    if set(names) - e:
+                    # instances created/deleted by a call whose reply was lost: may or may not be in the list
+                    ex = {k for _, k in self.exempt.get((m, si, cls), ())}
+                    e = e - ex
+                    if set(names) - e - ex:
                         self.report('owned-list-after-%s-%s-extra' % (kind, cls), manager=m, server=si,
-                                    extra=sorted(set(names) - e))
+                                    extra=sorted(set(names) - e - ex))
                     miss = e - set(names)
                     if miss and kind == 'reg' and cls == 'subscription' and (m, si) == (op[1], op[2]):
                         # Discovery cannot see an owned subscription whose filter and destination are both not
@@ -505,9 +702,9 @@ class History:
                     if miss:
                         self.report('owned-list-after-%s-%s-missing' % (kind, cls), manager=m, server=si,
                                     missing=sorted(miss))
-                    if set(names) - now:
+                    if set(names) - now - ex:
                         self.report('owned-list-after-%s-%s-entry-not-in-server' % (kind, cls), manager=m, server=si,
-                                    stale=sorted(set(names) - now))
+                                    stale=sorted(set(names) - now - ex))
                     if cls == 'destination':
                         for i in lst:
                             n = i.path.keybindings['Name']
@@ -786,92 +983,100 @@ FIDS = ['f1', 'f2', '', 'a.c', 'x y', 'abc', 'F1', '.*', 'é']
 DIDS = ['d1', 'd2', '', 'a.c', 'abc', '[d]']
 
 
+def random_op(rnd, H, nmgr, nsrv):
+    """The next operation of a random history (None: nothing applicable was drawn)."""
+    allowed_f = lambda name, mid: owner_of(name, PRE[FIL]) in (None, mid)   # noqa
+    allowed_d = lambda name, mid: owner_of(name, PRE[DST]) in (None, mid)   # noqa
+    m = rnd.randrange(nmgr)
+    mid = H.ids[m]
+    s = rnd.randrange(nsrv)
+    S = H.msrv[s]
+    x = rnd.random()
+    if s not in H.reg[m]:
+        # mostly (re-)register; otherwise exercise the ValueError path (not add_sub: covered separately)
+        if x < 0.75:
+            op = ('reg', m, s)
+        elif x < 0.8:
+            op = ('add_filter', m, s, True, rnd.choice(FIDS))
+        elif x < 0.85:
+            op = ('rm_filter', m, s, rnd.choice(sorted(S.fil) or ['nonexistent']))
+        elif x < 0.9:
+            op = ('unreg', m, s)
+        elif x < 0.95:
+            op = ('foreign_filter', s, rnd.choice([f for f in FOREIGN_F if f not in S.fil] or ['zz%d' % len(S.fil)]))
+        else:
+            op = ('restart', m)
+    elif x < 0.03:
+        op = ('reg', m, s)
+    elif x < 0.17:
+        op = ('add_filter', m, s, True, rnd.choice(FIDS)) if rnd.random() < 0.7 else \
+            ('add_filter', m, s, False, rnd.choice(FOREIGN_F))
+    elif x < 0.31:
+        url = rnd.choice(URL_OK) if rnd.random() < 0.85 else rnd.choice(list(URLS))
+        pt = rnd.choice((None, None, 'permanent', 'transient', 'Transient')) if rnd.random() < 0.93 else 'bogus'
+        op = ('add_dest', m, s, True, rnd.choice(DIDS), url, pt) if rnd.random() < 0.7 else \
+            ('add_dest', m, s, False, rnd.choice(FOREIGN_D), url, pt)
+    elif x < 0.53:
+        fs = [f for f in sorted(S.fil) if allowed_f(f, mid)] or ['nonexistent']
+        ds = [d for d in sorted(S.dst) if allowed_d(d, mid)] or ['nonexistent']
+        fn = rnd.choice(fs) if rnd.random() < 0.93 else 'nonexistent'
+        y = rnd.random()
+        if y < 0.2:
+            dns = None
+        elif y < 0.7:
+            dns = rnd.choice(ds) if rnd.random() < 0.93 else 'nonexistent'
+        else:
+            dns = tuple(rnd.choice(ds) for _ in range(rnd.randrange(0, 4)))
+        op = ('add_sub', m, s, fn, dns, rnd.random() < 0.7)
+    elif x < 0.61:
+        fs = [f for f in sorted(S.fil) if allowed_f(f, mid)] or ['nonexistent']
+        op = ('rm_filter', m, s, rnd.choice(fs) if rnd.random() < 0.9 else 'nonexistent')
+    elif x < 0.69:
+        ds = [d for d in sorted(S.dst) if allowed_d(d, mid)] or ['nonexistent']
+        if rnd.random() < 0.6:
+            op = ('rm_dest', m, s, rnd.choice(ds) if rnd.random() < 0.9 else 'nonexistent')
+        else:
+            op = ('rm_dest', m, s, tuple(rnd.sample(ds, rnd.randrange(0, min(3, len(ds)) + 1))))
+    elif x < 0.79:
+        ks = [k for k, o in sorted(S.sub.items(), key=lambda kv: kv[0]) if o is None or o == mid] or \
+            [('nonexistent', 'nonexistent')]
+        if rnd.random() < 0.6:
+            op = ('rm_sub', m, s, rnd.choice(ks) if rnd.random() < 0.9 else ('nonexistent', 'nonexistent'))
+        else:
+            op = ('rm_sub', m, s, rnd.sample(ks, rnd.randrange(0, min(3, len(ks)) + 1)))
+    elif x < 0.84:
+        op = ('unreg', m, s)
+    elif x < 0.86:
+        op = ('unreg_all', m)
+    elif x < 0.88:
+        op = rnd.choice((('exit', m), ('exit_exc', m)))
+    elif x < 0.93:
+        op = ('restart', m)
+    elif x < 0.96:
+        op = ('foreign_filter', s, rnd.choice([f for f in FOREIGN_F if f not in S.fil] or ['zz%d' % len(S.fil)]))
+    elif x < 0.98:
+        op = ('foreign_dest', s, rnd.choice([d for d in FOREIGN_D if d not in S.dst] or ['zz%d' % len(S.dst)]),
+              'http://foreign:1')
+    else:
+        fs = [f for f in sorted(S.fil) if owner_of(f, PRE[FIL]) is None]
+        ds = [d for d in sorted(S.dst) if owner_of(d, PRE[DST]) is None]
+        free = [(f, d) for f in fs for d in ds if (f, d) not in S.sub]
+        if not free:
+            return None
+        op = ('foreign_sub', s) + rnd.choice(free)
+    return op
+
+
 def random_history(rnd, idx):
     nsrv = rnd.choice((1, 1, 2))
     nmgr = rnd.choice((1, 2, 2, 3))
     ids = rnd.sample(INERT_IDS, nmgr)
     H = History('random-history', ids, nsrv)
     n = rnd.randrange(10, 25)
-    allowed_f = lambda name, mid: owner_of(name, PRE[FIL]) in (None, mid)   # noqa
-    allowed_d = lambda name, mid: owner_of(name, PRE[DST]) in (None, mid)   # noqa
     for _ in range(n):
-        m = rnd.randrange(nmgr)
-        mid = ids[m]
-        s = rnd.randrange(nsrv)
-        S = H.msrv[s]
-        x = rnd.random()
-        if s not in H.reg[m]:
-            # mostly (re-)register; otherwise exercise the ValueError path (not add_sub: covered separately)
-            if x < 0.75:
-                op = ('reg', m, s)
-            elif x < 0.8:
-                op = ('add_filter', m, s, True, rnd.choice(FIDS))
-            elif x < 0.85:
-                op = ('rm_filter', m, s, rnd.choice(sorted(S.fil) or ['nonexistent']))
-            elif x < 0.9:
-                op = ('unreg', m, s)
-            elif x < 0.95:
-                op = ('foreign_filter', s, rnd.choice([f for f in FOREIGN_F if f not in S.fil] or ['zz%d' % len(S.fil)]))
-            else:
-                op = ('restart', m)
-        elif x < 0.03:
-            op = ('reg', m, s)
-        elif x < 0.17:
-            op = ('add_filter', m, s, True, rnd.choice(FIDS)) if rnd.random() < 0.7 else \
-                ('add_filter', m, s, False, rnd.choice(FOREIGN_F))
-        elif x < 0.31:
-            url = rnd.choice(URL_OK) if rnd.random() < 0.85 else rnd.choice(list(URLS))
-            pt = rnd.choice((None, None, 'permanent', 'transient', 'Transient')) if rnd.random() < 0.93 else 'bogus'
-            op = ('add_dest', m, s, True, rnd.choice(DIDS), url, pt) if rnd.random() < 0.7 else \
-                ('add_dest', m, s, False, rnd.choice(FOREIGN_D), url, pt)
-        elif x < 0.53:
-            fs = [f for f in sorted(S.fil) if allowed_f(f, mid)] or ['nonexistent']
-            ds = [d for d in sorted(S.dst) if allowed_d(d, mid)] or ['nonexistent']
-            fn = rnd.choice(fs) if rnd.random() < 0.93 else 'nonexistent'
-            y = rnd.random()
-            if y < 0.2:
-                dns = None
-            elif y < 0.7:
-                dns = rnd.choice(ds) if rnd.random() < 0.93 else 'nonexistent'
-            else:
-                dns = tuple(rnd.choice(ds) for _ in range(rnd.randrange(0, 4)))
-            op = ('add_sub', m, s, fn, dns, rnd.random() < 0.7)
-        elif x < 0.61:
-            fs = [f for f in sorted(S.fil) if allowed_f(f, mid)] or ['nonexistent']
-            op = ('rm_filter', m, s, rnd.choice(fs) if rnd.random() < 0.9 else 'nonexistent')
-        elif x < 0.69:
-            ds = [d for d in sorted(S.dst) if allowed_d(d, mid)] or ['nonexistent']
-            if rnd.random() < 0.6:
-                op = ('rm_dest', m, s, rnd.choice(ds) if rnd.random() < 0.9 else 'nonexistent')
-            else:
-                op = ('rm_dest', m, s, tuple(rnd.sample(ds, rnd.randrange(0, min(3, len(ds)) + 1))))
-        elif x < 0.79:
-            ks = [k for k, o in sorted(S.sub.items(), key=lambda kv: kv[0]) if o is None or o == mid] or \
-                [('nonexistent', 'nonexistent')]
-            if rnd.random() < 0.6:
-                op = ('rm_sub', m, s, rnd.choice(ks) if rnd.random() < 0.9 else ('nonexistent', 'nonexistent'))
-            else:
-                op = ('rm_sub', m, s, rnd.sample(ks, rnd.randrange(0, min(3, len(ks)) + 1)))
-        elif x < 0.84:
-            op = ('unreg', m, s)
-        elif x < 0.86:
-            op = ('unreg_all', m)
-        elif x < 0.88:
-            op = rnd.choice((('exit', m), ('exit_exc', m)))
-        elif x < 0.93:
-            op = ('restart', m)
-        elif x < 0.96:
-            op = ('foreign_filter', s, rnd.choice([f for f in FOREIGN_F if f not in S.fil] or ['zz%d' % len(S.fil)]))
-        elif x < 0.98:
-            op = ('foreign_dest', s, rnd.choice([d for d in FOREIGN_D if d not in S.dst] or ['zz%d' % len(S.dst)]),
-                  'http://foreign:1')
-        else:
-            fs = [f for f in sorted(S.fil) if owner_of(f, PRE[FIL]) is None]
-            ds = [d for d in sorted(S.dst) if owner_of(d, PRE[DST]) is None]
-            free = [(f, d) for f in fs for d in ds if (f, d) not in S.sub]
-            if not free:
-                continue
-            op = ('foreign_sub', s) + rnd.choice(free)
+        op = random_op(rnd, H, nmgr, nsrv)
+        if op is None:
+            continue
         if not H.step(op):
             break
     else:
@@ -880,6 +1085,322 @@ def random_history(rnd, idx):
             if not H.step(('exit', m)):
                 break
     R.case(('rand', idx, len(H.trace), zlib.crc32(repr(H.trace).encode('utf-8'))))
+
+
+# ---------------------------------------------------------------- family 6: failing server calls
+
+INJ_MODE_EXC = {'cim': 'cim', 'conn': 'conn', 'lost': 'conn'}
+UNREG_KINDS = ('unreg', 'unreg_all', 'exit', 'exit_exc')
+
+KNOWN_GET = 'known:owned-instance-created-but-not-recorded-when-the-following-GetInstance-fails'
+KNOWN_KEYERR = 'known:remove-server-failing-partway-leaves-get-owned-raising-KeyError'
+KNOWN_ADDSRV = 'known:add-server-failing-during-discovery-leaves-server-registered-with-incomplete-owned-lists'
+KNOWN_GONE = 'known:remove-server-cannot-complete-once-an-owned-instance-is-already-gone'
+KNOWN_WHAT = {
+    KNOWN_GET:
+        "Manager 'abc': add_filter(sid, 'root/cimv2', query, filter_id='f1') (likewise add_destination and owned "
+        "add_subscriptions) when CreateInstance succeeds and the GetInstance that follows it raises CIMError or "
+        "ConnectionError: pywbemfilter:abc:f1 now exists in the server but is not in get_owned_filters(sid); the "
+        "retry raises CIM_ERR_ALREADY_EXISTS and remove_server(sid) leaves the instance behind.",
+    KNOWN_KEYERR:
+        "Manager 'abc' owning filters f1, f2, destination d1 and subscription f1-d1: remove_server(sid) with the "
+        "DeleteInstance of filter f2 failing (injected, or refused by the server because manager 'ab' has a "
+        "subscription on pywbemfilter:abc:f2) leaves the server registered but get_owned_subscriptions(sid) raises "
+        "KeyError from then on (after a failing destination delete get_owned_filters too), and so do owned "
+        "add_subscriptions and remove_subscriptions.",
+    KNOWN_ADDSRV:
+        "New manager 'abc', add_server(server) on a server holding pywbemfilter:abc:f1, with any of the three "
+        "discovery EnumerateInstances calls raising: the exception propagates but the server stays registered with "
+        "empty or partial owned lists (get_owned_filters(url) == []), the retry raises ValueError('already known') "
+        "and remove_server(url) deletes only what had been discovered.",
+    KNOWN_GONE:
+        "Manager 'abc' owning filters f1, f2: remove_server(sid) whose DeleteInstance of f2 was executed by the "
+        "server but whose reply was lost; every retry of remove_server/remove_all_servers/__exit__ raises "
+        "CIM_ERR_NOT_FOUND at the f2 entry, so f1 is never deleted, and no manager call can drop the entry "
+        "(remove_filter/remove_destinations/remove_subscriptions delete in the server before touching the list).",
+}
+
+
+def clone_manager(mgr):
+    """A manager object in the same state (its per-server tables copied one level deep; the instance objects in them
+    are never modified by the manager). Every history started from a clone first compares the clone with the server."""
+    new = copy.copy(mgr)
+    for a, v in vars(mgr).items():
+        if isinstance(v, dict):
+            setattr(new, a, {k: (list(x) if isinstance(x, list) else x) for k, x in v.items()})
+    return new
+
+
+def really_registered(mgr, url):
+    try:
+        mgr.get_owned_filters(url)
+    except ValueError:
+        return False
+    except Exception:  # noqa
+        pass
+    return True
+
+
+def fault_relabel(vid, op, H):
+    kind = op[0] if op else None
+    if vid == 'registration-after-fault-reg-kept':
+        return KNOWN_ADDSRV
+    if vid == 'get-owned-raises-KeyError' and H.partial:
+        return KNOWN_KEYERR
+    if H.last_fired == 'GetInstance' and vid in ('owned-list-after-fault-add_filter-filter-missing',
+                                                 'owned-list-after-fault-add_dest-destination-missing',
+                                                 'owned-list-after-fault-add_sub-subscription-missing'):
+        return KNOWN_GET
+    if kind in UNREG_KINDS and vid == 'outcome-%s-expected-ok-got-CIMError:6' % kind and \
+            any(key[0] == op[1] and any(f == 'DeleteInstance' for f, _ in v) for key, v in H.exempt.items()):
+        return KNOWN_GONE
+    return vid
+
+
+FU = ['http://host1:5000', 'https://host1:5000', 'http://host1:5001', 'http://host1.dom.example:5000']
+
+
+def fault_setup(ida, two):
+    """A populated server: manager 0 owns 2 filters, 3 destinations, 3 subscriptions (one on a foreign filter) and has
+    created a permanent filter and destination; manager 1 owns a filter, a destination and a subscription; foreign
+    filter, destinations and subscription. With two: manager 0 also owns 1+1+2 instances on a second server."""
+    fa, da = PRE[FIL] + ida + ':', PRE[DST] + ida + ':'
+    ops = [('reg', 0, 0), ('reg', 1, 0), ('foreign_filter', 0, 'perm1'), ('foreign_dest', 0, 'permd1', 'http://f:1'),
+           ('foreign_dest', 0, 'permd2', 'http://f:2'), ('foreign_sub', 0, 'perm1', 'permd2'),
+           ('add_filter', 0, 0, True, 'f1'), ('add_filter', 0, 0, True, 'f2'), ('add_filter', 0, 0, False, 'perm2'),
+           ('add_dest', 0, 0, True, 'd1', FU[0], None), ('add_dest', 0, 0, True, 'd2', FU[1], None),
+           ('add_dest', 0, 0, True, 'd3', FU[2], None), ('add_dest', 0, 0, False, 'permd3', FU[2], None),
+           ('add_filter', 1, 0, True, 'f1'), ('add_dest', 1, 0, True, 'd1', FU[0], None),
+           ('add_sub', 0, 0, fa + 'f1', (da + 'd1', da + 'd2'), True), ('add_sub', 0, 0, 'perm1', da + 'd1', True),
+           ('add_sub', 1, 0, 'perm1', None, True)]
+    if two:
+        ops += [('reg', 0, 1), ('foreign_filter', 1, 'perm1'), ('add_filter', 0, 1, True, 'f1'),
+                ('add_dest', 0, 1, True, 'd1', FU[0], None), ('add_sub', 0, 1, fa + 'f1', None, True),
+                ('add_sub', 0, 1, 'perm1', None, True)]
+    return ops
+
+
+def fault_targets(ida, idb):
+    fa, da, db = PRE[FIL] + ida + ':', PRE[DST] + ida + ':', PRE[DST] + idb + ':'
+    # (name, two servers, extra setup, the manager call under fault)
+    return [
+        ('add_server', False, [('restart', 0)], ('reg', 0, 0)),
+        ('add_server-fresh-WBEMServer', False, [('restart', 0)], ('reg', 0, 0, 'fresh')),
+        ('add_filter-owned', False, [], ('add_filter', 0, 0, True, 'f3')),
+        ('add_filter-permanent', False, [], ('add_filter', 0, 0, False, 'perm3')),
+        ('add_destination-owned', False, [], ('add_dest', 0, 0, True, 'd4', FU[3], None)),
+        ('add_destination-permanent', False, [], ('add_dest', 0, 0, False, 'permd4', FU[3], 'permanent')),
+        ('add_destination-reused', False, [], ('add_dest', 0, 0, True, 'd5', FU[0], None)),
+        ('add_subscriptions-owned-all-destinations', False, [], ('add_sub', 0, 0, fa + 'f2', None, True)),
+        ('add_subscriptions-owned-list-one-existing', False, [],
+         ('add_sub', 0, 0, fa + 'f1', (da + 'd1', da + 'd3', 'permd1'), True)),
+        ('add_subscriptions-owned-on-unowned-ends', False, [], ('add_sub', 0, 0, 'perm2', 'permd1', True)),
+        ('add_subscriptions-permanent', False, [], ('add_sub', 0, 0, 'perm2', ('permd1', 'permd3'), False)),
+        ('remove_subscriptions-one', False, [], ('rm_sub', 0, 0, (fa + 'f1', da + 'd1'))),
+        ('remove_subscriptions-list', False, [],
+         ('rm_sub', 0, 0, [(fa + 'f1', da + 'd2'), ('perm1', da + 'd1'), ('perm1', 'permd2')])),
+        ('remove_filter-owned', False, [], ('rm_filter', 0, 0, fa + 'f2')),
+        ('remove_filter-permanent', False, [], ('rm_filter', 0, 0, 'perm2')),
+        ('remove_destinations-one', False, [], ('rm_dest', 0, 0, da + 'd3')),
+        ('remove_destinations-list', False, [], ('rm_dest', 0, 0, (da + 'd3', 'permd3'))),
+        ('remove_server', False, [], ('unreg', 0, 0)),
+        ('remove_server-other-manager', False, [], ('unreg', 1, 0)),
+        ('remove_all_servers', True, [], ('unreg_all', 0)),
+        ('exit', False, [], ('exit', 0)),
+        ('exit-with-exception', True, [], ('exit_exc', 0)),
+        ('add_subscriptions-other-manager', False, [], ('add_sub', 1, 0, 'perm2', (db + 'd1', 'permd1'), True)),
+    ]
+
+
+CHECKPOINTS = {}
+
+
+def fault_history(ids, two, setup):
+    """A history that has run the fault-free setup (built once per distinct setup, then cloned)."""
+    key = repr((ids, two, setup))
+    if key not in CHECKPOINTS:
+        H = History('failing-server-call', ids, 2 if two else 1, relabel=fault_relabel)
+        H.fixed_server_objects = True
+        ok = all(H.step(op, quiet=True) for op in setup)
+        if ok:
+            H.check_state('setup', ('setup',), with_get_all=False)
+        CHECKPOINTS.clear()      # one at a time is enough (cases are grouped by setup)
+        CHECKPOINTS[key] = H.checkpoint() if ok and not H.vids else None
+    if CHECKPOINTS[key] is None:
+        return None
+    H = History.restore(CHECKPOINTS[key], 'failing-server-call', relabel=fault_relabel)
+    H.fixed_server_objects = True
+    H.resync_on_mismatch = True
+    H.check_state('setup', ('setup',), with_get_all=False)    # the clone agrees with the server and the model
+    return None if H.vids else H
+
+
+def recover(H, op, variant, first_ok, short=False):
+    """After the failed call: 'retry' = the same call again on the same manager object, then remove_all_servers, then
+    a new manager with the same id finds nothing; 'restart' = a new manager with the same id rediscovers exactly
+    what is left, the call again, leaving the context manager, and again a new manager that finds nothing.
+    A step that shows only known defects sends the rest of the history through 'restart' (the lists of the old manager
+    object are no longer to be trusted); KNOWN_KEYERR alone does not (state and model still agree)."""
+    m = op[1]
+    regs = sorted(H.reg[m] | ({op[2]} if op[0] == 'reg' else set()))
+    regops = [('reg', m, s) for s in regs]
+    restart = [('restart', m)] + regops + [op[:3] if op[0] == 'reg' else op, ('exit', m)] + \
+        ([] if short else [('restart', m)] + regops + [('unreg_all', m)])
+    retry = [op, ('unreg_all', m), ('restart', m)] + regops + [('unreg_all', m)]
+    fallback = [('restart', m)] + regops + [('exit', m), ('restart', m)] + regops + [('unreg_all', m)]
+    queue = list(retry if variant == 'retry' and first_ok else restart)
+    fell_back = queue is restart or not first_ok
+    while queue:
+        o = queue.pop(0)
+        n0 = len(H.vids)
+        if H.step(o, final=not queue):
+            continue
+        new = H.vids[n0:]
+        if not all(v.startswith('known:') for v in new):
+            return
+        if all(v == KNOWN_KEYERR for v in new):
+            continue
+        if fell_back:
+            return
+        fell_back = True
+        queue = list(fallback)
+
+
+def fault_minimal():
+    """Small histories first, so that what gets reported for a known defect is its shortest form."""
+    f1, f2, d1 = ('add_filter', 0, 0, True, 'f1'), ('add_filter', 0, 0, True, 'f2'), \
+        ('add_dest', 0, 0, True, 'd1', FU[0], None)
+    s1 = ('add_sub', 0, 0, PRE[FIL] + 'abc:f1', PRE[DST] + 'abc:d1', True)
+    for setup, op, k, mode, variant in (
+            ([('reg', 0, 0)], f1, 3, 'cim', 'retry'),
+            ([('reg', 0, 0)], d1, 3, 'conn', 'retry'),
+            ([('reg', 0, 0), f1, d1], s1, 2, 'cim', 'retry'),
+            ([('reg', 0, 0), f1, f2, d1, s1], ('unreg', 0, 0), 2, 'cim', 'retry'),
+            ([('reg', 0, 0), f1, f2, d1, s1], ('unreg', 0, 0), 4, 'conn', 'retry'),
+            ([('reg', 0, 0), f1, ('restart', 0)], ('reg', 0, 0), 2, 'cim', 'retry'),
+            ([('reg', 0, 0), f1, d1, s1, ('restart', 0)], ('reg', 0, 0), 3, 'conn', 'retry'),
+            ([('reg', 0, 0), f1, f2], ('unreg', 0, 0), 1, 'lost', 'retry'),
+            ([('reg', 0, 0), f1], f2, 2, 'lost', 'restart')):
+        R.case(('fault-minimal', repr(setup), op, k, mode))
+        H = fault_history(['abc'], False, setup)
+        if H is not None:
+            n0 = len(H.vids)
+            ok = H.step(op, fault=(k, mode))
+            new = H.vids[n0:]
+            if ok or all(v.startswith('known:') for v in new):
+                recover(H, op, variant, ok or all(v == KNOWN_KEYERR for v in new))
+
+
+def fault_sweep(quick, rnd):
+    fault_minimal()
+    idsets = [('abc', 'ab')] if quick else [('abc', 'ab'), ('', 'a'), ('x/y#z', 'abc ')]
+    for ii, (ida, idb) in enumerate(idsets):
+        for ti, (name, two, extra, op) in enumerate(fault_targets(ida, idb)):
+            if quick and name in ('exit-with-exception', 'add_subscriptions-other-manager', 'remove_destinations-one'):
+                continue
+            setup = fault_setup(ida, two) + extra
+            # dry run: how many server calls does this manager call make, and which
+            R.case(('fault-dry', ida, name))
+            H = fault_history([ida, idb], two, setup)
+            if H is None:
+                continue
+            INJ.arm(10 ** 9, 'cim')
+            try:
+                H.real(op)
+            except Exception as e:  # noqa
+                H.report('dry-run-%s-raises-%s' % (op[0], type(e).__name__), observed=repr(e)[:200])
+                continue
+            finally:
+                calls = list(INJ.log)
+                INJ.disarm()
+            for k, call in enumerate(calls, 1):
+                modes = ['cim', 'conn'] + (['lost'] if call in ('CreateInstance', 'DeleteInstance') else [])
+                for mi, mode in enumerate(modes):
+                    for vi, variant in enumerate(('retry', 'restart')):
+                        if quick and mode != 'lost' and (mi, vi) != ((k + ti) % 2, (k + ti) // 2 % 2):
+                            continue        # quick: each position once, with CIMError or ConnectionError
+                        if quick and mode == 'lost' and vi != (k + ti) % 2 and call == 'DeleteInstance':
+                            continue
+                        if mode == 'lost' and call == 'CreateInstance' and variant == 'retry':
+                            continue        # the orphan is unknown to the old manager object: restart is the recovery
+                        R.case(('fault', ida, name, k, call, mode, variant))
+                        H = fault_history([ida, idb], two, setup)
+                        if H is None:
+                            break
+                        n0 = len(H.vids)
+                        ok = H.step(op, fault=(k, mode))
+                        new = H.vids[n0:]
+                        if not ok and not all(v.startswith('known:') for v in new):
+                            continue
+                        recover(H, op, variant, ok or all(v == KNOWN_KEYERR for v in new), short=quick)
+    # the failure that needs no injection: manager 0 cannot delete an owned filter/destination that a subscription
+    # of manager 1 references; manager 1 then removes its subscription and manager 0 tries again
+    for ida, idb in idsets:
+        fa, da, fb, db = PRE[FIL] + ida + ':', PRE[DST] + ida + ':', PRE[FIL] + idb + ':', PRE[DST] + idb + ':'
+        for bname, bsub in (('last-filter', (fa + 'f2', db + 'd1')), ('first-filter', (fa + 'f1', db + 'd1')),
+                            ('destination', (fb + 'f1', da + 'd1')), ('filter-and-destination', (fa + 'f1', da + 'd2')),
+                            ('foreign-filter-own-destination', ('perm1', da + 'd2'))):
+            for leave in ('unreg', 'unreg_all', 'exit') if not quick else ('unreg', 'exit'):
+                R.case(('blocked', ida, bname, leave))
+                H = fault_history([ida, idb], False, [
+                    ('reg', 0, 0), ('reg', 1, 0), ('foreign_filter', 0, 'perm1'),
+                    ('add_filter', 0, 0, True, 'f1'), ('add_filter', 0, 0, True, 'f2'),
+                    ('add_dest', 0, 0, True, 'd1', FU[0], None), ('add_dest', 0, 0, True, 'd2', FU[1], None),
+                    ('add_sub', 0, 0, fa + 'f1', da + 'd1', True), ('add_filter', 1, 0, True, 'f1'),
+                    ('add_dest', 1, 0, True, 'd1', FU[0], None), ('add_sub', 1, 0) + bsub + (True,)])
+                if H is None:
+                    continue
+                lop = (leave, 0, 0) if leave == 'unreg' else (leave, 0)
+                ops = [(lop, ('natural',)), (('add_filter', 1, 0, True, 'f2'), None), (('rm_sub', 1, 0, bsub), None),
+                       (lop, None), (('restart', 0), None), (('reg', 0, 0), None), (('unreg_all', 0), None),
+                       (('exit', 1), None)]
+                for o, flt in ops:
+                    n0 = len(H.vids)
+                    if not H.step(o, fault=flt) and not all(v == KNOWN_KEYERR for v in H.vids[n0:]):
+                        break
+
+
+def random_fault_history(rnd, idx):
+    """A random history in which one manager call (drawn at random, after 4..12 fault-free ones) meets a failing
+    server call at a random position, followed by the recovery and a few more random operations."""
+    nsrv = rnd.choice((1, 1, 2))
+    nmgr = rnd.choice((1, 2, 2, 3))
+    ids = rnd.sample(INERT_IDS, nmgr)
+    H = History('random-history-with-failing-call', ids, nsrv, relabel=fault_relabel)
+    H.fixed_server_objects = True
+    H.resync_on_mismatch = True
+    n1 = rnd.randrange(4, 13)
+    fired = False
+    done = 0
+    for _ in range(60):
+        op = random_op(rnd, H, nmgr, nsrv)
+        if op is None or (op[0] == 'add_dest' and URLS[op[5]] == 'either'):
+            continue
+        done += 1
+        if fired or done <= n1 or op[0].startswith('foreign') or op[0] == 'restart':
+            if not H.step(op):
+                break
+            if fired and done > n1 + 6:
+                break
+            continue
+        k, mode = rnd.randrange(1, 7), rnd.choice(('cim', 'conn', 'lost'))
+        n0 = len(H.vids)
+        ok = H.step(op, fault=(k, mode))
+        if H.last_fired is None:
+            if not ok:
+                break
+            continue            # this call made fewer than k server calls: try the next one
+        fired = True
+        new = H.vids[n0:]
+        if not ok and not all(v.startswith('known:') for v in new):
+            break
+        lost_create = any(f == 'CreateInstance' for v in H.exempt.values() for f, _ in v)
+        recover(H, op, 'restart' if lost_create else rnd.choice(('retry', 'restart')),
+                ok or all(v == KNOWN_KEYERR for v in new))
+        if len(H.vids) > n0:
+            break
+        n1 = done
+    R.case(('rand-fault', idx, len(H.trace), zlib.crc32(repr(H.trace).encode('utf-8'))))
 
 
 # ---------------------------------------------------------------- main
@@ -917,6 +1438,11 @@ def main():
     # random histories
     for i in range(60 if quick else 600):
         random_history(rnd, i)
+    # failing server calls at every position of every manager call; the same inside random histories
+    rnd2 = random.Random(R.seed + 1)
+    fault_sweep(quick, rnd2)
+    for i in range(25 if quick else 500):
+        random_fault_history(rnd2, i)
     for s in SERVERS:
         s.reset()
     R.finish()
